@@ -89,7 +89,7 @@ MiscInit == [probe |-> [e \in EP |-> -1], thr |-> <<>>, cbs |-> <<>>, ackDue |->
              incn |-> <<>>, fwdMax |-> [e \in EP |-> -1],
              nack |-> [line |-> 0, to |-> -1, set |-> {}, hb |-> FALSE], teardown |-> FALSE, calls |-> <<>>, inj |-> <<>>, dead |-> [e \in EP |-> FALSE], abortRx |-> [e \in EP |-> FALSE], fuzzed |-> FALSE, abortSeen |-> [e \in EP |-> FALSE], shutAt |-> <<>>, shutRet |-> <<>>, closedInc |-> <<>>, wdl |-> <<>>, rdl |-> <<>>, reqs |-> <<>>, gen |-> <<>>, performed |-> {}, genAtRx |-> <<>>, rsGen |-> <<>>,
              pendReads |-> <<>>, hbCalls |-> <<>>, hbSeen |-> {}, txn |-> [e \in EP |-> 0], wfail |-> {}, rdBase |-> <<>>, rdOut |-> <<>>, bwOwed |-> {}, forged |-> FALSE,
-             abortTx |-> [e \in EP |-> FALSE], shutTx |-> [e \in EP |-> -1], miss |-> [e \in EP |-> [s |-> <<>>, l |-> <<>>, ok |-> TRUE]], lossSig |-> [line |-> 0, to |-> -1, set |-> {}],
+             connClosed |-> [e \in EP |-> FALSE], abortTx |-> [e \in EP |-> FALSE], shutTx |-> [e \in EP |-> -1], miss |-> [e \in EP |-> [s |-> <<>>, l |-> <<>>, ok |-> TRUE]], lossSig |-> [line |-> 0, to |-> -1, set |-> {}],
              t3h |-> [e \in EP |-> [t |-> -1, iv |-> 0, cum |-> -1, n |-> -1]]]
 
 InitVars ==
@@ -1074,9 +1074,12 @@ TrInject ==
 \* dead -- any later write attempt is a violation (TrTx / txfail)
 TrCrashObs ==
   /\ IsEv("crashobs")
+  \* "terminates it cleanly": an association that was closed or aborted has closed the transport it was given
+  /\ viol' = viol \cup {V("C09_TransportClosed", <<e, misc.inj[e].kind>>) :
+                          e \in {x \in DOMAIN misc.inj : E.phase = 1 /\ misc.inj[x].kind \in {"close", "abort"} /\ ~misc.connClosed[x] /\ sn[x] # NoSnap}}
   /\ misc' = [misc EXCEPT !.dead = [e \in EP |-> @[e] \/ (e \in DOMAIN misc.inj /\ (E.phase = 2 \/ misc.inj[e].kind \in {"close", "abort"}))]]
   /\ l' = l + 1
-  /\ UNCHANGED <<scen, cfg, msg, order, reads, ch, hi, pkt, rcvd, skipTo, ackCum, ackGap, arw, outst, lastSack, sackEv, sn, step, newData, rs, acc, viol>>
+  /\ UNCHANGED <<scen, cfg, msg, order, reads, ch, hi, pkt, rcvd, skipTo, ackCum, ackGap, arw, outst, lastSack, sackEv, sn, step, newData, rs, acc>>
 TrTxFail ==
   /\ IsEv("txfail")
   /\ viol' = viol \cup (IF misc.dead[E.ep] THEN {V("C09_NoWriteAfterClose", <<E.ep, "attempt", E.why>>)} ELSE {})
@@ -1095,8 +1098,9 @@ Passive == {"drop", "connclose", "note"}
 TrPassive ==
   /\ l <= Len(Trace) /\ Trace[l].ev \in Passive
   /\ step' = E
+  /\ misc' = IF E.ev = "connclose" THEN [misc EXCEPT !.connClosed[E.ep] = TRUE] ELSE misc
   /\ l' = l + 1
-  /\ UNCHANGED <<scen, cfg, msg, order, reads, ch, hi, pkt, rcvd, skipTo, ackCum, ackGap, arw, outst, lastSack, sackEv, sn, newData, misc, rs, acc, viol>>
+  /\ UNCHANGED <<scen, cfg, msg, order, reads, ch, hi, pkt, rcvd, skipTo, ackCum, ackGap, arw, outst, lastSack, sackEv, sn, newData, rs, acc, viol>>
 
 Next == TrCfg \/ TrWCall \/ TrWrite \/ TrRead \/ TrTx \/ TrForge \/ TrChunkData \/ TrChunkSack \/ TrChunkFwd \/ TrChunkShutdown \/ TrChunkReconfig \/ TrChunkHb \/ TrChunkOther
         \/ TrRx \/ TrSnap \/ TrSame \/ TrEnd \/ TrApi \/ TrCb \/ TrTick \/ TrExpect \/ TrDiff \/ TrHsFinal \/ TrHsSpecial \/ TrShutEnd \/ TrAdvEnd \/ TrCall \/ TrRet \/ TrInject \/ TrCrashObs \/ TrTxFail \/ TrStormEnd \/ TrPassive \/ TrDeadlock \/ TrBubbleLeak
